@@ -197,6 +197,13 @@ def gen_family(rng, force=(), forbid=(), n_masters=None, max_glyphs=14, p_sparse
             uni = [0xC0 + len(comps)] if rng.random() < 0.6 else []
             roster.append((name, uni, "composite"))
             comps.append((name, b, m))
+    if "ligature" in on and "composites" in on and len(base_names) >= 2 and rng.random() < 0.5:
+        # a composite built from a ligature and the two bases themselves: several
+        # components contribute anchors called 'top' *and* there are 'top_1'/'top_2'
+        roster.append((base_names[0] + "_" + base_names[1] + ".stack", [], "ligacomp"))
+    if "marks" in on and len(marks) >= 2 and rng.random() < 0.4:
+        # a mark made of two marks (a "ligature mark")
+        roster.append((marks[0][0] + "_" + marks[1][0], [], "markliga"))
     if "mixed" in on:
         roster.append((base_names[0] + ".mixed", [], "mixed"))
     if "nested" in on and comps:
@@ -224,8 +231,10 @@ def gen_family(rng, force=(), forbid=(), n_masters=None, max_glyphs=14, p_sparse
             g = _simple_glyph(rng, spec, width=500, ncontours=rng.choice([1, 2]))
         elif role.startswith("mark"):
             g = _simple_glyph(rng, spec, width=rng.choice([0, 0, 200]), ncontours=1)
-        elif role == "composite":
+        elif role in ("composite", "ligacomp"):
             g = _empty_glyph(rng.choice([500, 600]))
+        elif role == "markliga":
+            g = _empty_glyph(0)
         elif role.startswith("nested:"):
             g = _empty_glyph(rng.choice([500, 600]))
         elif role == "mixed":
@@ -258,6 +267,15 @@ def gen_family(rng, force=(), forbid=(), n_masters=None, max_glyphs=14, p_sparse
                 glyphs[name]["components"].append([ref, _transform(rng, rng.choice(tkinds), spec["frac"])])
                 if marks and rng.random() < 0.5:
                     glyphs[name]["components"].append([marks[-1][0], _transform(rng, "offset", spec["frac"])])
+        if role == "ligacomp":
+            lig = base_names[0] + "_" + base_names[1]
+            if lig in glyphs:
+                glyphs[name]["components"] = [[lig, [1, 0, 0, 1, 0, 0]],
+                                              [base_names[0], _transform(rng, "offset", spec["frac"])],
+                                              [base_names[1], _transform(rng, "offset", spec["frac"])]]
+        if role == "markliga":
+            glyphs[name]["components"] = [[marks[0][0], [1, 0, 0, 1, 0, 0]],
+                                          [marks[1][0], _transform(rng, "offset", spec["frac"])]]
         if role == "mixed":
             mb = comps[0][1] if comps and rng.random() < 0.6 else base_names[-1]
             glyphs[name]["components"].append([mb, _transform(rng, rng.choice(tkinds), spec["frac"])])
